@@ -11,7 +11,8 @@ from ..core import viol
 RULE = ("one logical chain x many physical layouts (blocks->files assignment: single/contiguous/round-robin/random/reversed/"
         "interleaved/one-per-file; 1..300 files; file numbers sequential, sparse, up to 2^64-1; file-name padding 0/1/5/8 digits; gaps of "
         "zeros / random bytes / foreign-magic blocks / unindexed real blocks; sparse offsets beyond 4 GiB; extra 'f','l','R','F','t' keys; "
-        "extra directory entries; index as log only / several tables / several sessions / compacted; base heights up to millions): real "
+        "extra directory entries; index as log only / several tables / several sessions / compacted; base heights up to millions; a quarter "
+        "of the directories XOR-obfuscated): real "
         "csvdump (+unspentcsvdump) run per layout; output must equal the model and be identical across layouts of the same chain; the H2 "
         "fetch log must name exactly the (file, offset) of the record of each height. "
         "distinct = (assignment, #files class, gaps, numbering, padding, sparse, extras, index style) signatures")
@@ -33,7 +34,11 @@ def case(spec):
     kw["index_opts"] = idx
     work = harness.fresh(os.path.join(spec["work"], "c%d" % spec["n"]))
     d = os.path.join(work, "d")
-    datadir.write_datadir(d, COINS[coin], **kw)
+    xor_key = None
+    if spec.get("xor"):
+        # the layout guarantee must also hold for obfuscated directories (files revisited after other files were read)
+        xor_key = bytes(lrng.randrange(1, 256) for _ in range(lrng.choice([8, 8, 3, 16])))
+    datadir.write_datadir(d, COINS[coin], xor_key=xor_key, **kw)
     binary = core.build(spec.get("profile", "release"))
     start = chain[0][0] if chain[0][0] > 0 else None
     verify = spec.get("verify", False)
@@ -47,7 +52,7 @@ def case(spec):
     v.extend(viol(sig, "%s [layout=%s coin=%s]" % (det, desc, coin)) for sig, det in bad)
     ev = harness.read_events(log)
     fetches = [e for e in ev if e["ev"] == "fetch"]
-    counters = {"runs": 1, "fetch_events": len(fetches)}
+    counters = {"runs": 1, "fetch_events": len(fetches), "xor_obfuscated_layouts": 1 if xor_key else 0}
     byh = {h: i for i, (h, b) in enumerate(chain)}
     sizes = {h: len(b.ser()) for h, b in chain}
     for e in fetches:
@@ -130,7 +135,7 @@ def plan(chk):
         for L in lays:
             n += 1
             specs.append(dict(case="case", coin=coin, chain_seed=chk.seed * 1000 + c, n=n, layout=L, base=base, blocks=blocks,
-                              verify=(n % 2 == 0), also_unspent=(n % 5 == 0), shuffle_index=(n % 3 == 0),
+                              verify=(n % 2 == 0), also_unspent=(n % 5 == 0), shuffle_index=(n % 3 == 0), xor=(n % 4 == 1),
                               profile="debug" if n % 11 == 0 else "release"))
     return specs
 
